@@ -174,6 +174,7 @@ fn eval_probe(r: &mut Rng) -> Option<Case> {
     let mut c = Case::default();
     c.req = format!("eval-expr {} (vals {})", sx::exp(&builder_shape(&index_exp(&e, &names))), sx::nums(&vals));
     c.imp = format!("(ok {})", sx::num(sol.eval(&be)));
+    c.oracle = format!("eval-check {} (vals {}) {}", sx::exp(&builder_shape(&index_exp(&e, &names))), sx::nums(&vals), sx::num(sol.eval(&be)));
     c.show = format!("solution.eval({}) at {:?}", e, vals);
     c.tags = vec!["eval-probe".into()];
     c.nontrivial = true;
@@ -316,6 +317,7 @@ fn one(m: &Model, ds: &[VarDecl], r: &mut Rng, i: usize) -> Vec<Case> {
             let be = to_builder(&e, &handles, r);
             c.req = format!("eval-expr {} (vals {})", sx::exp(&builder_shape(&index_exp(&e, &names))), sx::nums(&vals));
             c.imp = format!("(ok {})", sx::num(sol.eval(&be)));
+            c.oracle = format!("eval-check {} (vals {}) {}", sx::exp(&builder_shape(&index_exp(&e, &names))), sx::nums(&vals), sx::num(sol.eval(&be)));
             c.show = format!("solution.eval({}) at {:?}", e, vals);
             c.tags = vec!["eval-expr".into()];
             c.nontrivial = true;
